@@ -1,9 +1,9 @@
 /* C12 (memory safety only; the store semantics are C17): ini_buf_parse / ini_buf_calc_size / ini_buf_gen / ini_destroy.
- * Shape: LEN arbitrary input bytes (any mix of CR, LF, '[', ']', '=', ';', '#'); every output capacity 0..3*LEN+1 is
- * tried on the parsed store, each in its own exactly sized object.
+ * Shape: LEN arbitrary input bytes (any mix of CR, LF, '[', ']', '=', ';', '#'); CAP = output capacity for
+ * ini_buf_gen on the parsed store (exactly sized object; symbolic-size memcpy makes each gen call expensive, so one per job).
  * KF_INI_GEN_BOUNDS: known finding - ini_buf_gen tests each line against the whole buffer size instead of the space
  * left, so it overruns whenever capacity < total size but the lines fit one by one.  Blocking clause: capacities
- * 1..total-1 are skipped. */
+ * 1..total-1 are excluded by assumption. */
 #include "verif.h"
 #include <errno.h>
 /* ini_line_alloc__int: calloc(1, sizeof(ini_line_t) + line size + 16), line size 0..LEN */
@@ -40,9 +40,11 @@ void harness(void) {
 	size_t need = 777;
 	r = ini_buf_calc_size(ini, &need);
 	V_ASSERT(r == 0 && need == sum && need <= 3 * LEN, "calc_size = sum of (line + CRLF)");
-	for (size_t cap = 0; cap <= 3 * LEN + 1; cap++) {
+#ifdef CAP
+	{
+		const size_t cap = CAP;
 #ifdef KF_INI_GEN_BOUNDS
-		if (cap != 0 && cap < need) continue;
+		V_ASSUME(cap == 0 || cap >= need);
 #endif
 		uint8_t *dst = (uint8_t *)v_alloc(cap);
 		size_t out = 777;
@@ -59,6 +61,7 @@ void harness(void) {
 			V_WITNESS("gen ok");
 		}
 	}
+#endif
 	ini_destroy(ini);
 	V_WITNESS("ini done");
 }
